@@ -28,7 +28,7 @@ func drawC07(rt *rapid.T) TSpec {
 	if thorough() {
 		maxTasks = 32
 	}
-	kinds := []int{tPrepare, tPrepare, tProveNonrev, tProveNonrev, tProveNonrev, tProvePlain, tProveRange, tProveList, tIssueCommit, tIssueRetry}
+	kinds := []int{tPrepare, tPrepare, tProveNonrev, tProveNonrev, tProveNonrev, tProvePlain, tProveRange, tProveList, tIssueCommit, tIssueRetry, tProveAfterFailedCommit}
 	s := drawTSpec(rt, kinds, maxTasks, 4, 3)
 	s.Sequential = rapid.IntRange(0, 3).Draw(rt, "sequential") == 0
 	return s
